@@ -33,3 +33,11 @@ Theorem derived_chain_write_refused : forall ag s frags g, rw s = true -> p_dat 
 Proof. exact chain_write_refused. Qed.
 Theorem derived_chain_leaf : forall frags g, put_leaf (chain frags (FRaw g)) = Some g.
 Proof. exact put_leaf_chain. Qed.
+
+(* as built (frozen tree): the full statements hold for the model with the guards read from the source *)
+Theorem affix_calls_guarded_in_source : gen_affix_guarded = true.
+Proof. exact gen_affix_guarded_true. Qed.
+Theorem rdonly_inert_as_built : forall s c, rw s = false -> gen_exec s c = (RAccMode, s).
+Proof. exact rdonly_inert_gen. Qed.
+Theorem protect_respected_as_built : forall s c, is_protect_call c = false -> unchanged_protected s (snd (gen_exec s c)).
+Proof. exact protect_respected_gen. Qed.
